@@ -42,6 +42,13 @@ def cases(tier, seed):
             c = dict(base)
             c['sidx'] = j
             cs.append(c)
+    # degenerate but legitimate inputs: zero numerator (0/y, 0.0/y, zeros/y) and an all-zero starting tensor
+    for i in range(12 if not T else 120):
+        d = rng.choice([2, 3, 4])
+        N = [rng.randint(2, 5) for _ in range(d)]
+        cs.append({'gen': 'div', 'form': ['s/y', 'x/y', 'elementwise_divide', 'elementwise_divide'][i % 4], 'N': N, 'Rx': gens.rank_profile(rng, d, 'rand', 3), 'Rz': gens.rank_profile(rng, d, 'rand', 2),
+                   'eps': 1e-8, 'prec': 'c' if i % 8 >= 4 else None, 'start': i % 4 == 3, 'scalar': [0, 0.0][i % 2], 'zero_num': i % 4 != 3, 'zero_start': i % 4 == 3,
+                   'vseed': rng.randrange(2 ** 40), 'sidx': 0})
     for i in range(40 if not T else 400):
         d = rng.randint(1, 4)
         cs.append({'gen': 'scalar', 'N': [rng.choice((1, 2, 3, 4)) for _ in range(d)], 'R': gens.rank_profile(rng, d, 'rand', 3), 'scalar': rng.choice([2, 0.5, -4.0, 0.25, 8]),
@@ -85,7 +92,7 @@ def run_div(case, ctx, g):
     dt = torch.float64
     N, form = case['N'], case['form']
     d = len(N)
-    x = gens.make_tt(N, case['Rx'], dt, 'gauss', g)
+    x = gens.make_tt(N, case['Rx'], dt, 'zero' if case.get('zero_num') else 'gauss', g)
     z = gens.make_tt(N, case['Rz'], dt, 'gauss', g)
     zmax = float(dn.D(z).abs().max())
     z = ctx.call('TT*scalar', lambda a: a * (1.0 / max(zmax, 1e-300)), z)
@@ -114,14 +121,14 @@ def run_div(case, ctx, g):
             ctx.count('opt:preconditioner-c')
         if case['start']:
             rr = random.Random(case['vseed'] + 3)
-            start = gens.make_tt(N, [1] + [rr.randint(1, 3) for _ in N[1:]] + [1], dt, 'gauss', g)
+            start = gens.make_tt(N, [1] + [rr.randint(1, 3) for _ in N[1:]] + [1], dt, 'zero' if case.get('zero_start') else 'gauss', g)
             kw['starting_tensor'] = start
             ctx.count('opt:starting_tensor')
             q = ctx.lib('elementwise_divide(start)', lambda a, b, c: torchtt.elementwise_divide(a, b, **dict(kw, starting_tensor=c)), x, y, start)
         else:
             q = ctx.lib('elementwise_divide', lambda a, b: torchtt.elementwise_divide(a, b, **kw), x, y)
         opts = 'eps=%.2e prec=%s start=%s' % (tol, case['prec'], case['start'])
-    key = 'divide/%s%s' % (form, '/prec=c' if (form == 'elementwise_divide' and case['prec']) else '')
+    key = 'divide/%s%s%s' % (form, '/prec=c' if (form == 'elementwise_divide' and case['prec']) else '', '/zero-numerator' if (case.get('zero_num') or (form == 's/y' and case['scalar'] == 0)) else ('/zero-start' if case.get('zero_start') else ''))
     what = '%s N=%s Rx=%s Ry=%s %s seed-index %d' % (form, N, case['Rx'], [int(r) for r in y.R], opts, case['sidx'])
     if isinstance(q, Raised):
         ctx.viol(key + '/clause=raises:%s@%s' % (q.type, q.func), '%s raised %r' % (what, q))
@@ -136,9 +143,11 @@ def run_div(case, ctx, g):
         return
     nn = dn.fro(num)
     err = dn.fro(dq * dy - num)
-    ratio = err / (tol * nn) if nn > 0 else (0.0 if err == 0 else float('inf'))
+    ratio = err / (tol * nn) if nn > 0 else err / tol      # zero numerator: absolute
     ctx.metric('residual_over_tol/' + form, ratio)
     if not ratio <= C_TOL:
         ctx.viol(key + '/clause=residual>100tol', '%s: ||q*y-x||/||x|| = %.3e = %.3g * tol; result ranks %s' % (what, err / nn if nn else float('nan'), ratio, [int(r) for r in q.R]))
-    if nn > 0:
-        ctx.nontrivial((form, tuple(N), tuple(case['Rx']), tuple(case['Rz']), int(math.log10(tol)), case['prec'], case['start'], case['sidx']))
+    if case.get('zero_num') or case.get('zero_start') or (form == 's/y' and case['scalar'] == 0):
+        ctx.count('degenerate_zero_inputs')
+    if nn > 0 or True:
+        ctx.nontrivial((form, case.get('zero_num'), case.get('zero_start'), tuple(N), tuple(case['Rx']), tuple(case['Rz']), int(math.log10(tol)), case['prec'], case['start'], case['sidx']))
